@@ -113,6 +113,11 @@ def walk (n : Nat) (acts : List IAct) : Walk :=
 def pairs (j : Json) : List (String × String) :=
   (arr j).map fun p => match strList p with | [a, b] => (a, b) | _ => ("?", "?")
 
+/-- last record per name, sorted by name -/
+def lastPerName (recs : List (String × String)) : List (String × String) :=
+  let names := asSet (recs.map (·.1))
+  names.filterMap fun n => (recs.reverse.find? (·.1 == n))
+
 def className : Class → String
   | .pass => "pass" | .fail => "fail" | .setup => "setup" | .norun => "norun" | .noresult => "noresult"
 
@@ -150,10 +155,21 @@ def handle (inp impl : Json) : Verdict :=
   if !modelOK then bad "model: the schedule of the script does not end in a terminal state" else
   let cases := (List.range n).map fun i =>
     caseOf (accepted i) (match cbsM i with | [some _] => (w.kinds.lookup i) | _ => none)
+  -- what the in-process reference server prints on its stderr through the real printer: the model of
+  -- `safePrinter.PrefixPrintf` / `Printf`
+  let isRef := bool (field inp "isRef")
+  let printed : List Char := if !isRef then [] else (arr (field inp "feedback")).flatMap fun f =>
+    let m := int (field f "m")
+    let fmt := (str (field f "fmt")).toList
+    let args := (strList (field f "args")).map String.toList
+    if m ≥ 0 then prefixPrintf (names.getD m.toNat "?").toList fmt args else printf fmt args
+  -- `runInProcess` prints the error with which the server function returns (`"%v\n"`)
+  let printed := printed ++ (if isRef && bool (field inp "serverExitErr") && nat (field inp "serverExitMs") > 0
+    then "verif in-process server gives up\n".toList else [])
   let s : Script := {
     cases := cases, isRef := bool (field inp "isRef"), useTLS := false, startErr := false,
     writeErr := false, closeErr := false, resp := .ok, dies := diesOf proc.hookAt w.checks,
-    names := names.map String.toList, stderr := [] }
+    names := names.map String.toList, stderr := printed }
   let out := runBatch s
   let stop := Spec.stopIdx s.dies 0 s.cases
   let mFinal : List (String × String) := (List.range n).filterMap fun i =>
@@ -177,7 +193,19 @@ def handle (inp impl : Json) : Verdict :=
     else r == "unsent"
   let cbsOK := (List.range n).all fun i => cbs.getD i 99 == (if i < stop then 1 else 0)
   let healthy := exitMs == 0
-  let agree := !hang && panics.isEmpty && iOutcomes == mOutcomes && retsOK && cbsOK && serverReturned &&
+  -- stderr of the reference server: forwarded lines and side-band records
+  let mFw := out.forwarded.map String.ofList
+  let mSb := lastPerName (out.sideband.map fun (a, b) => (String.ofList a, String.ofList b))
+  let iFw := strList (field impl "forwarded")
+  let iSb := pairs (field impl "sideband")
+  let badPrefix := nat (field impl "badPrefix")
+  let lines := splitLines s.stderr []
+  let namesOK := s.names.all Spec.noSep
+  let xFw := if isRef then (Spec.expectForwarded s.names lines).map String.ofList else []
+  let xSb := if isRef then lastPerName ((Spec.expectRecords s.names lines).map fun (a, b) => (String.ofList a, String.ofList b)) else []
+  let stderrAgree := iFw == mFw && iSb == mSb && badPrefix == 0
+  let stderrOK := !namesOK || (iFw == xFw && iSb == xSb && badPrefix == 0)
+  let agree := stderrAgree && !hang && panics.isEmpty && iOutcomes == mOutcomes && retsOK && cbsOK && serverReturned &&
     (!healthy || (stopCalls == (calls : Int) && stopCbs == (cbsTotal : Int))) &&
     !(bool (field impl "awaitTimeout")) && str (field impl "clientWait") == "returned"
   -- the property on the implementation's output
@@ -199,6 +227,7 @@ def handle (inp impl : Json) : Verdict :=
       (if healthy && duration > graceMs then s!"; the in-process server was healthy, the batch lasted {duration} ms" else "")
     else if !serverReturned then "the in-process server was still running when the batch returned"
     else if !stoppedLate then s!"the healthy in-process server was told to stop after {stopCalls} of {calls} sendRequest calls and {stopCbs} of {cbsTotal} callbacks (batch of {duration} ms)"
+    else if !stderrOK then "feedback printed by the reference server for the cases " ++ toString names ++ " was not attributed to the named case: side-band " ++ toString iSb ++ ", passed through " ++ toString iFw ++ "; expected side-band " ++ toString xSb ++ ", passed through " ++ toString xFw
     else ""
   let holds := why == ""
   { agree := agree, holds := holds,
@@ -206,7 +235,7 @@ def handle (inp impl : Json) : Verdict :=
     model := Json.mkObj [("outcomes", toJson (mOutcomes.map fun (a, b) => [a, b])), ("stop", toJson stop),
       ("checks", toJson w.checks)],
     why := if holds && !agree then "implementation differs from the model" else why,
-    cls := if duration > graceMs then "inproc:slow" else if !healthy then "inproc:server-ends"
+    cls := if !printed.isEmpty then "inproc:feedback" else if duration > graceMs then "inproc:slow" else if !healthy then "inproc:server-ends"
       else if stop < n then "inproc:pipe-broken" else "inproc:complete" }
 
 end ConfModel.Driver.C11InProc
